@@ -212,8 +212,11 @@ func (g *genCtx) cmd(name string, depth int, used map[string]bool) CmdSpec {
 	c := CmdSpec{Name: name}
 	if g.cfg.Descriptions {
 		c.Desc = "cmd " + name + " does things"
-		if rapid.IntRange(0, 3).Draw(t, "cdescml") == 0 {
+		switch rapid.IntRange(0, 5).Draw(t, "cdescml") {
+		case 0:
 			c.Desc += "\nand more things"
+		case 1: // several paragraphs: a summary, an empty line, a body
+			c.Desc += "\n\nbody of " + name + " after an empty line\nlast line of " + name
 		}
 	}
 	myUsed := map[string]bool{}
